@@ -326,7 +326,7 @@ register(_C02())
 class _C03(CalSpec):
     pid = "C03"
     lean_module = "Starcal.Props.C03"
-    src_ties = ["Starcal.SrcTie.All"]
+    src_ties = ["Starcal.SrcTie.Cal2"]
     kinds = ("jd", "ym")
     expected = "JdTo(jd) equals the date counted from the published anchor with the published leap rule and month lengths (table lengths inside the hijri table window)"
     rule = CAL_RULE
@@ -338,7 +338,7 @@ register(_C03())
 class _C07(CalSpec):
     pid = "C07"
     lean_module = "Starcal.Props.C07"
-    src_ties = ["Starcal.SrcTie.All"]
+    src_ties = ["Starcal.SrcTie.Cal2"]
     kinds = ("ym",)
     expected = "month lengths equal gaps between month starts, sum to the year length, leap iff long year"
     rule = CAL_RULE
